@@ -58,7 +58,8 @@ def attr_read(ghost, bearer):
     e = script_at(ghost.read_errs, k, 0)
     if e != 0:
         raise att.ATT_Error(error_code=e)
-    return script_at(ghost.read_vals, k, b'')
+    # ghost.vmax: an upper bound of the value lengths of this database (unconstrained unless a contract says otherwise)
+    return script_at(ghost.read_vals, k, b'')[: ghost.vmax]
 
 
 def attr_write(ghost, bearer, value):
@@ -149,7 +150,7 @@ SERVER = Inst('bumble.gatt_server:Server#c10')
 ERRCODE = IntRange(0, 0xFF)  # 0 = the access succeeds
 GHOST = dict(nresp=Int, rbearer=Int, rop=Int, rerr_op=Int, rerr=Int, mtu_updates=Int,
              nreads=Int, read_errs=ListOf(ERRCODE), read_vals=ListOf(Bytes), nwrites=Int, write_errs=ListOf(ERRCODE),
-             ngets=Int, found=ListOf(Bool), get_attrs=ListOf(ATTR), attr=ATTR)
+             ngets=Int, found=ListOf(Bool), get_attrs=ListOf(ATTR), attr=ATTR, vmax=IntRange(0, 1 << 32))
 MOD = ['ghost.ngets', 'ghost.nresp', 'ghost.rbearer', 'ghost.rop', 'ghost.rerr_op', 'ghost.rerr', 'ghost.mtu_updates', 'ghost.nreads', 'ghost.nwrites']
 
 
